@@ -433,15 +433,17 @@ func runC12(p *Prog, r *Report) {
 				if !ok {
 					continue
 				}
-				x, y := stripConv(bo.X), stripConv(bo.Y)
 				step := stripConv(step)
-				// step OP limit (true branch)  or  limit OP' step
-				if x == step && puField(y) == limit && bo.Op == op && c.Branch == 0 {
-					okP = true
-				}
-				rev := map[token.Token]token.Token{token.GTR: token.LSS, token.LSS: token.GTR}[op]
-				if y == step && puField(x) == limit && bo.Op == rev && c.Branch == 0 {
-					okP = true
+				_ = bo
+				// step > limit (op GTR) or step < limit (op LSS) on this side, however spelled
+				if lx, ly, side, ok := strictLess(c.If.Cond); ok && side == c.Branch {
+					lx, ly = stripConv(lx), stripConv(ly)
+					if op == token.LSS && lx == step && puField(ly) == limit {
+						okP = true
+					}
+					if op == token.GTR && ly == step && puField(lx) == limit {
+						okP = true
+					}
 				}
 			}
 		}
@@ -509,7 +511,11 @@ func runC12(p *Prog, r *Report) {
 						zeroHome = st
 					}
 				}
-				if a == "resetCount" && b == "resetAfter" && op == token.GTR && c.Branch == 0 {
+				wrapSide := false
+				if lx, ly, side, ok := strictLess(c.If.Cond); ok && side == c.Branch && puField(stripConv(lx)) == "resetAfter" && puField(stripConv(ly)) == "resetCount" {
+					wrapSide = true // resetAfter < resetCount here
+				}
+				if wrapSide {
 					zeroWrap = st
 					zeroHome = nilIf(zeroHome, st)
 				}
